@@ -298,7 +298,10 @@ class Interp:
         if f in (pd.Series, pd.DataFrame) and has_sym(a):
             return _construct(f, *a, **kw)
         try:
-            return f(*a, **kw)
+            out = f(*a, **kw)
+            if isinstance(out, (pd.DataFrame, pd.Series)) and self.env is not None and self.env.has_tags(out):
+                out = self.env.convert(out)  # e.g. FromArray builds its partitions from tagged ndarrays at run time
+            return out
         except (KeyError, IndexError) as e:
             if has_sym(a) or has_sym(kw):
                 raise StructuralError(f"{getattr(f, '__name__', f)}: {type(e).__name__}: {e}")
